@@ -235,5 +235,108 @@ def gating_case(tier):
                 max_paths=200000, wall_s=900)
 
 
+CHANNEL_CALLS = ["send", "send_stderr", "sendall", "recv", "recv_stderr", "close", "shutdown_write", "shutdown(2)", "shutdown(0)",
+                 "send_exit_status", "resize_pty", "set_combine_stderr", "_handle_close", "_handle_eof", "_handle_request(exec,want-reply)",
+                 "_feed_extended(unknown-type)", "_window_adjust"]
+
+
+def lock_order_case():
+    """_send_user_message waits for the end of a key exchange, and the transport thread that has to finish the exchange
+    takes Channel.lock to handle the peer's in-flight messages for that channel: a Channel method that hands a message
+    to the transport while holding Channel.lock stalls the re-exchange.  Every sending Channel method, from every
+    relevant channel state, must call the transport with Channel.lock released."""
+    def fn(ctx):
+        import paramiko.channel as CH
+        from paramiko.message import Message
+        from props._chan import make_channel
+        sent, held = [], []
+        c = make_channel(sent)
+        tr = c.transport
+        real = tr._send_user_message
+
+        def watched(m):
+            held.append(c.lock.locked())
+            return real(m)
+        tr._send_user_message = watched
+        tr._send_message = watched
+        call = ctx.choice("channel-call", CHANNEL_CALLS)
+        state = ctx.choice("channel-state", ["open", "eof-sent", "eof-received", "closed"])
+        win = ctx.choice("send-window", [0, 5])
+        c._set_window(2 ** 21, 2 ** 15)
+        c._set_remote_channel(7, win, 100)
+        c.in_window_threshold = 1                # the next byte read makes a window adjust due
+        c.settimeout(0.0)
+        if state == "eof-sent":
+            c.eof_sent = True
+        elif state == "eof-received":
+            c.eof_received = True
+        elif state == "closed":
+            c.closed = c.eof_sent = True
+        c.in_buffer.feed(b"ab")
+        c.in_stderr_buffer.feed(b"cd")
+
+        def msg(*parts):
+            m = Message()
+            for p in parts:
+                if isinstance(p, int):
+                    m.add_int(p)
+                elif isinstance(p, bool):
+                    m.add_boolean(p)
+                else:
+                    m.add_string(p)
+            m.rewind()
+            return m
+        try:
+            if call == "send":
+                c.send(b"xy")
+            elif call == "send_stderr":
+                c.send_stderr(b"xy")
+            elif call == "sendall":
+                c.sendall(b"xy")
+            elif call == "recv":
+                c.recv(2)
+            elif call == "recv_stderr":
+                c.recv_stderr(2)
+            elif call == "close":
+                c.close()
+            elif call == "shutdown_write":
+                c.shutdown_write()
+            elif call == "shutdown(2)":
+                c.shutdown(2)
+            elif call == "shutdown(0)":
+                c.shutdown(0)
+            elif call == "send_exit_status":
+                c.send_exit_status(3)
+            elif call == "resize_pty":
+                c.event.set()
+                c.resize_pty(80, 24)
+            elif call == "set_combine_stderr":
+                c.set_combine_stderr(True)
+            elif call == "_handle_close":
+                c._handle_close(msg())
+            elif call == "_handle_eof":
+                c._handle_eof(msg())
+            elif call == "_handle_request(exec,want-reply)":
+                m = Message()
+                m.add_string("exec")
+                m.add_boolean(True)
+                m.add_string("ls")
+                m.rewind()
+                tr.server_object = type("S", (), {"check_channel_exec_request": lambda s, ch, cmd: True})()
+                c._handle_request(m)
+            elif call == "_feed_extended(unknown-type)":
+                c._feed_extended(msg(4, b"zz"))
+            else:
+                c._window_adjust(msg(9))
+        except (OSError, EOFError, CH.SSHException):
+            ctx.reach("call-refused-in-this-state")
+        ctx.prove(not any(held), "no-message-is-handed-to-the-transport-while-Channel.lock-is-held")
+        ctx.prove(not c.lock.locked(), "Channel.lock-released-on-every-way-out")
+        if held:
+            ctx.reach("a-message-was-sent")
+    return Case("channel-sends-outside-its-lock", fn, ["no-message-is-handed-to-the-transport-while-Channel.lock-is-held", "a-message-was-sent"],
+                {"calls": CHANNEL_CALLS, "states": ["open", "eof-sent", "eof-received", "closed"], "send window": [0, 5]})
+
+
 def cases(tier):
-    return [inflight_case(True), inflight_case(False), gating_case(tier)]
+    return [inflight_case(True), inflight_case(False), gating_case(tier), lock_order_case()]
